@@ -67,7 +67,7 @@ func c03Run(e *Env) {
 	case IsDatagram(tr):
 		cfg := SimUDPConfig(int32(t.Choose(65536)))
 		cfg.TransmissionAcknowledgeTimeout = ackTO
-		cfg.TransmissionMaxRetransmit = 3
+		cfg.TransmissionMaxRetransmit = 20 // the few ticks of this scenario never exhaust the attempts (exhaustion is C06's business)
 		cfg.TransmissionNStart = 16
 		cfg.BlockwiseEnable = bw
 		cfg.LimitClientParallelRequests = limit
